@@ -18,6 +18,7 @@ I(n) == [k |-> "int", v |-> n]
 NegI(n) == [k |-> "neg", v |-> n]
 B(b) == [k |-> "bool", v |-> b]
 Null == [k |-> "null"]
+F(t) == [k |-> "float", v |-> t]                \* a YAML float, by its text: ".inf", "-.inf", ".nan", "1.5", "60.0"
 Lst(s) == [k |-> "list", v |-> s]
 Mp(f) == [k |-> "map", v |-> f]
 Absent == [k |-> "absent"]
@@ -57,6 +58,7 @@ IntField(v, dflt) ==
   ELSE IF v.k = "int" THEN Ok(v.v)
   ELSE IF v.k = "str" THEN (IF v.v \in IntStr THEN Ok(IntOf(v.v)) ELSE Err)
   ELSE IF v.k \in {"neg", "bool"} THEN Either               \* representable, out of the documented range / odd type
+  ELSE IF v.k = "float" THEN (IF v.v \in {"inf", "-inf", "nan"} THEN Err ELSE Either)    \* no integer is "exactly" infinity; a finite float is an odd type
   ELSE Err                                                  \* null, list, map
 PortField(v) == LET r == IntField(v, 0) IN IF r.c = "ok" /\ r.n > 65535 THEN Either ELSE r
 AddrField(v) == IF v.k = "str" THEN (IF v.v \in Addrs THEN Ok(Resolve(v.v)) ELSE Err) ELSE Err
@@ -129,7 +131,9 @@ Connection(v) ==
              \* (an empty string / empty mapping in place of the list iterates like an empty list: "no protect entries" - the property allows either outcome, observation O-6)
              entries == IF prot \in {S(""), Mp(<<>>)} THEN <<Either>> ELSE IF prot.k # "list" THEN <<Err>>
                         ELSE [i \in 1..Len(prot.v) |-> ProtectEntry(prot.v[i], Val(my), Val(peer))]
-             all == <<my, peer, ma, pa, encr, integ, prf, dh, life, dpd, listens>> \o entries
+             \* a proposal has at least one transform (RFC 7296 3.3): four empty lists cannot be loaded to anything
+             some == IF Combine(<<encr, integ, prf, dh>>) = "ok" /\ encr.n \o integ.n \o prf.n \o dh.n = <<>> THEN Err ELSE Ok(TRUE)
+             all == <<my, peer, ma, pa, encr, integ, prf, dh, some, life, dpd, listens>> \o entries
          IN IF Combine(all) # "ok" THEN [c |-> Combine(all)]
             ELSE Ok([my_addr |-> my.n, peer_addr |-> peer.n, my_auth |-> ma.n, peer_auth |-> pa.n, encr |-> encr.n, integ |-> integ.n, prf |-> prf.n,
                      dh |-> dh.n, lifetime |-> life.n, dpd |-> dpd.n, protect |-> [i \in 1..Len(entries) |-> entries[i].n]])
@@ -152,7 +156,8 @@ BaseConn == [my_addr |-> S("192.168.0.1"), peer_addr |-> S("192.168.0.2"), my_au
              protect |-> Lst(<<BaseProtect>>)]
 
 \* ill-typed values of every kind - including the ones a careless "if not value" takes for "nothing given": empty string, zero, false, empty mapping
-Generic == {S("abc"), I(5), NegI(3), B(TRUE), Null, Lst(<<>>), Lst(<<S("x")>>), Mp([x |-> S("y")]), Absent, S(""), I(0), B(FALSE), Mp(<<>>)}
+Generic == {S("abc"), I(5), NegI(3), B(TRUE), Null, Lst(<<>>), Lst(<<S("x")>>), Mp([x |-> S("y")]), Absent, S(""), I(0), B(FALSE), Mp(<<>>),
+            F("inf"), F("-inf"), F("nan"), F("1.5"), F("60.0")}
 ConnValues(key) ==
   Generic \cup
   CASE key \in {"my_addr", "peer_addr"} -> {S("192.168.0.2"), S("192.168.0.1"), S("10.9.9.9"), S("alice.example"), S("2001:db8::2"), S("not an address")}
@@ -161,7 +166,10 @@ ConnValues(key) ==
                                              \* names that a resolver can turn into an address are names all the same (FQDN), not addresses
                                              Mp([id |-> S("alice.example"), psk |-> S("k")]), Mp([id |-> S("10.1"), psk |-> S("k")]), Mp([id |-> S("1234"), psk |-> S("k")]), Mp([id |-> S("bob@example.org"), pubkey |-> S("PEM-PUBLIC")]),
                                              Mp([id |-> S("a"), privkey |-> S("garbage")]), Mp([id |-> S("a"), pubkey |-> I(7)]), Mp([id |-> I(5), psk |-> S("k")]),
-                                             Mp([id |-> S("a"), psk |-> I(5)]), Mp([id |-> Lst(<<>>), psk |-> S("k")]), Mp(<<>>)}
+                                             Mp([id |-> S("a"), psk |-> I(5)]), Mp([id |-> Lst(<<>>), psk |-> S("k")]), Mp(<<>>),
+                                             \* a secret is an octet string: blanks, tabs and line ends at either end (a YAML block scalar ends in a newline) and letter case are part of it
+                                             Mp([id |-> S("a"), psk |-> S(" k")]), Mp([id |-> S("a"), psk |-> S("k ")]), Mp([id |-> S("a"), psk |-> S("k\n")]),
+                                             Mp([id |-> S("a"), psk |-> S("\tk")]), Mp([id |-> S("a"), psk |-> S(" ")]), Mp([id |-> S("a"), psk |-> S("K")])}
     [] key \in {"lifetime", "dpd"} -> {I(0), I(1), I(86400), S("60"), S("6o")}
     [] key = "encr" -> {Lst(Strs(<<"aes256">>)), Lst(Strs(<<"aes128", "aes256">>)), Lst(Strs(<<"3des">>)), Lst(<<I(256)>>), S("aes256")}
     [] key \in {"integ", "prf"} -> {Lst(Strs(<<"sha1", "sha512", "sha256">>)), Lst(Strs(<<"md5">>)), S("sha256"), Lst(<<Null>>)}
@@ -199,7 +207,11 @@ Conn2(prot) == Mp([my_addr |-> S("192.168.0.1"), peer_addr |-> S("10.9.9.9"), my
 MultiCases == {[level |-> "multi", key |-> "pair", val |-> Null, top |-> Mp([c1 |-> Mp(SetKey(BaseConn, "protect", Lst(<<WithIdx(p, 11), WithIdx(q, 12)>>)))])] : p, q \in ProtVariants}
               \cup {[level |-> "multi", key |-> "two-connections", val |-> Null,
                      top |-> Mp([c1 |-> Mp(SetKey(BaseConn, "protect", Lst(<<WithIdx(p, 11)>>))), c2 |-> Conn2(<<WithIdx(q, 12), WithIdx(p, 13)>>)])] : p, q \in ProtVariants}
-Cases == ConnSingles \cup ProtSingles \cup TopCases \cup MultiCases \cup {[level |-> "base", key |-> "-", val |-> Null, top |-> Mp([c1 |-> Mp(BaseConn)])]}
+\* rules that span several keys: the algorithm lists of a connection may be empty one by one (the listed algorithms, exactly) but not all at once
+EmptyLists(keys) == [x \in DOMAIN BaseConn |-> IF x \in keys THEN Lst(<<>>) ELSE BaseConn[x]]
+CrossCases == {[level |-> "multi", key |-> "empty-lists", val |-> Null, top |-> Mp([c1 |-> Mp(EmptyLists(ks))])] :
+                 ks \in {{"encr", "integ", "prf", "dh"}, {"encr", "integ", "prf"}, {"integ", "prf", "dh"}, {"encr", "dh"}}}
+Cases == ConnSingles \cup ProtSingles \cup TopCases \cup MultiCases \cup CrossCases \cup {[level |-> "base", key |-> "-", val |-> Null, top |-> Mp([c1 |-> Mp(BaseConn)])]}
 
 \* Load is total and three-valued on the whole universe; the base dictionary loads
 ASSUME \A c \in Cases : Load(c.top).c \in {"ok", "err", "either"}
